@@ -167,7 +167,7 @@ type reqObs struct {
 }
 
 func nameOfPeer(p peer.ID, kt string) string {
-	for _, n := range []string{"P", "Q"} {
+	for _, n := range []string{"P", "Q", "R"} {
 		if ids.PeerT(n, kt) == p {
 			return n
 		}
